@@ -327,6 +327,30 @@ def m_saturating(op):
     return f
 
 
+def m_tuple_cmp(it, a, ty, callee):
+    """<(A, B, ..) as Ord>::cmp: lexicographic, each component compared by its own Ord"""
+    from .. import mir
+    m = re.match(r'^<\((.*)\) as std::cmp::Ord>::cmp$', callee, re.S)
+    parts = [t.strip() for t in mir.split_top(m.group(1)) if t.strip()]
+    x, y = a
+    ORD = 'std::cmp::Ordering'
+    for i, t in enumerate(parts):
+        xi, yi = Ptr(x.cell, x.path + (i,)), Ptr(y.cell, y.path + (i,))
+        if t == 'bool':
+            bx, by = it.load(xi), it.load(yi)
+            if it.branch(it.veq(bx, by)):
+                continue
+            # differ: false < true
+            return Adt(ORD, 0, ()) if it.branch(b_not(it.to_z3bool(bx)) if not isinstance(bx, bool) else (not bx)) else Adt(ORD, 2, ())
+        r = it.call('<%s as std::cmp::Ord>::cmp' % t, [xi, yi], ORD)
+        if isinstance(r, Adt):
+            if r.variant != 1:
+                return r
+            continue
+        raise Inconclusive('tuple comparison with a symbolic component ordering')
+    return Adt(ORD, 1, ())
+
+
 def m_checked_sub(it, a, ty, callee):
     x, y = a
     lt = it.binop('Lt', x, y)
@@ -849,6 +873,7 @@ def install(it):
     A(r'core::num::<impl [ui]\w+>::wrapping_shl', lambda it, a, ty, c: it.binop('Shl', a[0], a[1]))
     A(r'core::num::<impl [ui]\w+>::wrapping_shr', lambda it, a, ty, c: it.binop('Shr', a[0], a[1]))
     A(r'<&*(?:u|i)(?:8|16|32|64|128|size) as std::cmp::PartialOrd(<.*>)?>::(lt|le|gt|ge)', m_ref_int_cmp)
+    A(r'<\(.*\) as std::cmp::Ord>::cmp', m_tuple_cmp)
     A(r'<(?:u|i)(?:8|16|32|64|128|size) as std::cmp::Ord>::cmp', lambda it, a, ty, c: it.binop('Cmp', deref(it, a[0]), deref(it, a[1])))
     A(r'<(?:u|i)(?:8|16|32|64|128|size) as std::cmp::Ord>::min', m_min_max('min'))
     A(r'<(?:u|i)(?:8|16|32|64|128|size) as std::cmp::Ord>::max', m_min_max('max'))
